@@ -5,7 +5,7 @@ namespace UrcuVerif.Lfq
 /-- destructure the hypothesis, unfold the definitions -/
 macro "inv_open" h:ident : tactic => `(tactic|
   (obtain ⟨seg, nodup, inq_iff, rem_next, tail_in, tail_ok, clk_cs, clk_rm, op_cs, cs_n, tl_held, hd_held, e_node, node_inj,
-           e_cas, e_adv, e_help, d_hd, d_nx, d_ldn2, d_tail, fifo, gens_tl, gens_hd, hi_fresh, pre_ok, no_uaf⟩ := $h
+           e_cas, e_adv, e_help, d_hd, d_nx, d_ldn2, d_tail, fifo, gens_tl, gens_hd, hi_fresh, pre_ok, no_uaf, e_kind⟩ := $h
    simp only [HoldsTl, HoldsHd, Owns, Held, abs] at *))
 
 /-- goal `Inv c <explicit state>`: one `grind` per clause -/
